@@ -25,7 +25,7 @@ import kani  # noqa: E402
 
 ANCHOR_RE = re.compile(r"^//\s*@anchor\s+(.*)$", re.M)
 VERIF_RE = re.compile(r"^\s*//\s*@verif\s+(.*)$")
-FN_RE = re.compile(r"^\s*(?:pub\s+)?fn\s+([A-Za-z0-9_]+)\s*\(")
+FN_RE = re.compile(r"^\s*(?:(?:pub\s+)?fn\s+([A-Za-z0-9_]+)\s*\(|[a-z_]+_harness!\(\s*([A-Za-z0-9_]+)\s*,)")
 UNWIND_RE = re.compile(r"#\[kani::unwind\((\d+)\)\]")
 STUB_RE = re.compile(r"#\[kani::stub\(([^)]*)\)\]")
 ASSUME_RE = re.compile(r"kani::assume\((.*)\);")
@@ -75,7 +75,9 @@ def scan_harness_text(text, modname, crate, src_rel, origin):
                 continue
             m = FN_RE.match(line)
             if m:
-                name = m.group(1)
+                name = m.group(1) or m.group(2)
+                if m.group(2):
+                    attrs = attrs + ["#[kani::unwind(%s)]" % pending.get("unwind", "12")]
                 unwind = None
                 stubs = []
                 for a in attrs:
@@ -110,6 +112,7 @@ def scan_harness_text(text, modname, crate, src_rel, origin):
                     cbmc=pending.get("cbmc", "").split() if pending.get("cbmc") else [],
                     nocover=pending.get("nocover", "") == "1",
                     cost=int(pending.get("cost", pending.get("timeout", "300"))),
+                    concrete=pending.get("concrete", "") == "1",
                 ))
                 pending = None
                 attrs = []
@@ -137,7 +140,7 @@ def load_harness_files():
             kv = parse_kv(m.group(1))
             crate, src_rel = kv["crate"], kv["src"]
             modname = "verif_" + os.path.splitext(fn)[0]
-            files.append(dict(path=p, crate=crate, src_rel=src_rel, modname=modname, text=text,
+            files.append(dict(path=p, crate=crate, src_rel=src_rel, modname=modname, text=text, export=kv.get("export", "") == "1",
                               needs=[x for x in kv.get("needs", "").split(",") if x],
                               jobs=scan_harness_text(text, modname, crate, src_rel, os.path.relpath(p, VERIF))))
     return files
@@ -217,7 +220,12 @@ def run_native_playback(root, crate, test_name, log_path, release=False, timeout
         return "error", text[-2000:]
     if int(m.group(3)) > 0:
         pm = re.search(r"panicked at ([^\n]*)\n([^\n]*)", text)
-        return "panicked", (pm.group(0) if pm else "")[:400]
+        msg = (pm.group(0) if pm else "")[:400]
+        if "concrete_playback.rs" in msg or "concrete values left over" in text:
+            # the harness consumed fewer/more symbolic values natively than under Kani (stubs are not
+            # applied natively): the counterexample does not transfer; not a reproduction
+            return "mismatch", msg
+        return "panicked", msg
     if int(m.group(2)) > 0:
         return "passed", ""
     return "notrun", ""
@@ -300,7 +308,7 @@ def main():
         ov = overlay.build(
             crates=crates,
             harness_files=[],
-            generated=[(f["modname"], f["crate"], f["src_rel"], f["text"]) for f in sel_files],
+            generated=[(f["modname"], f["crate"], f["src_rel"], f["text"], f.get("export", False)) for f in sel_files],
         )
     except overlay.OverlayError as e:
         print("INCONCLUSIVE property=%s overlay: %s" % (prop, e))
@@ -409,10 +417,22 @@ def main():
             r.status = "ok-known"
             continue
         # replay: rerun with concrete playback, then run natively
-        pbout, _w = kani.run_lane(root, job.crate, [job], lane_dirs[0], os.path.join(logdir, job.name + ".playback.log"),
-                                  max(per_lane_mem, job.mem), playback=True)
-        pb = pbout[job.full]
-        tests = [t for t in extract_playback_tests(getattr(pb, "raw", "")) if t["cls"] != "cover"]
+        if job.concrete:
+            # harness without symbolic inputs: the native replay is the harness itself
+            class _PB:
+                reason = "concrete harness"
+                status = "concrete"
+            pb = _PB()
+            tname = "kani_concrete_playback_%s_0" % job.name
+            body = ("/// Test generated for harness `%s` (no symbolic inputs: the harness itself)\n///\n"
+                    "/// Check for `assertion`: \"%s\"\n\n#[test]\nfn %s() {\n    let concrete_vals: Vec<Vec<u8>> = vec![];\n"
+                    "    kani::concrete_playback_run(concrete_vals, %s);\n}" % (job.full, unknown[0].desc.replace('"', "'"), tname, job.name))
+            tests = [dict(harness=job.full, cls="assertion", desc=unknown[0].desc, name=tname, body=body)]
+        else:
+            pbout, _w = kani.run_lane(root, job.crate, [job], lane_dirs[0], os.path.join(logdir, job.name + ".playback.log"),
+                                      int(os.environ.get("VERIF_PLAYBACK_MEM_MB", "24000")), playback=True)
+            pb = pbout[job.full]
+            tests = [t for t in extract_playback_tests(getattr(pb, "raw", "")) if t["cls"] != "cover"]
         unknown_descs = set(c.desc for c in unknown)
         cand = [t for t in tests if t["desc"] in unknown_descs] or tests
         reproduced = None
@@ -442,8 +462,8 @@ def main():
             violations.append((job, r, reproduced))
         else:
             r.status = "inconclusive"
-            r.reason = "counterexample(s) did not reproduce natively (%d tried, %d generated): %s" % (
-                tried, len(tests), "; ".join(sorted(unknown_descs))[:300])
+            r.reason = "counterexample(s) did not reproduce natively (%d tried, %d generated%s): %s" % (
+                tried, len(tests), "" if tests else "; playback run: " + (pb.reason or pb.status), "; ".join(sorted(unknown_descs))[:300])
             inconclusive.append((job, r))
 
     for line in sorted(set(known_lines)):
